@@ -261,7 +261,39 @@ class Expander:
             elif isinstance(s, ast.Call) and isinstance(s.func, ast.Attribute) and s.func.attr in ('append', 'extend', 'add', 'update', 'insert') \
                     and isinstance(s.func.value, ast.Name):
                 opaque.add(s.func.value.id)      # an accumulator is not its initial value
+        # a list that starts empty and is only ever grown by `nm.append(E)` inside for loops is the comprehension(s) [E for T in IT]: one expansion per append
+        # site (the spelling `nm = []; for T in IT: nm.append(E)` of `nm = [E for T in IT]`, also when the loops sit in the branches of an if)
+        grown: tp.Dict[str, tp.List[ast.expr]] = {}
+        parents: tp.Dict[int, ast.AST] = {}
+        for p_ in ast.walk(fn):
+            for ch in ast.iter_child_nodes(p_):
+                parents[id(ch)] = p_
+        mutators: tp.Dict[str, tp.List[ast.Call]] = {}
+        for c in ast.walk(fn):
+            if isinstance(c, ast.Call) and isinstance(c.func, ast.Attribute) and c.func.attr in ('append', 'extend', 'add', 'update', 'insert') and isinstance(c.func.value, ast.Name):
+                mutators.setdefault(c.func.value.id, []).append(c)
+        for nm, calls in mutators.items():
+            dv = self.defs.get(nm, [])
+            empty = len(dv) == 1 and ((isinstance(dv[0], ast.List) and not dv[0].elts) or (isinstance(dv[0], ast.Call) and norm(dv[0]) == 'list()'))
+            if not empty or nm in self.params or any(c.func.attr != 'append' or len(c.args) != 1 for c in calls):
+                continue
+            comps: tp.List[ast.expr] = []
+            for c in calls:
+                stmt = parents.get(id(c))
+                lp = parents.get(id(stmt)) if isinstance(stmt, ast.Expr) else None
+                conds: tp.List[ast.expr] = []
+                if isinstance(lp, ast.If) and not lp.orelse and len(lp.body) == 1:
+                    conds, lp = [lp.test], parents.get(id(lp))
+                if not (isinstance(lp, ast.For) and len(lp.body) == 1 and not lp.orelse) or any(isinstance(x, ast.Name) and x.id == nm for x in ast.walk(c.args[0])):
+                    comps = []
+                    break
+                comps.append(ast.ListComp(elt=c.args[0], generators=[ast.comprehension(target=lp.target, iter=lp.iter, ifs=conds, is_async=0)]))
+            if comps:
+                grown[nm] = comps
         for nm in opaque | self.params:
+            if nm in grown and nm not in self.params:
+                self.defs[nm] = grown[nm]
+                continue
             self.defs.pop(nm, None)
         # a definition that mentions its own name is loop-carried: opaque
         for nm in list(self.defs):
